@@ -26,10 +26,19 @@ if git apply --check "$OUT/patch.diff" 2>/dev/null; then
   if grep -q "^test result: FAILED\|error: could not compile\|error\[" "$OUT/suite_with_patch.log"; then SUITE=fails; else SUITE=passes; fi
   grep -E "^test result" "$OUT/suite_with_patch.log" | awk '{p+=$4; f+=$6} END {print "suite with patch: passed=" p " failed=" f}'
   cp "$OUT/seeded_demo.rs" tests/seeded_demo.rs
+  FEAT=""
   cargo test --offline --test seeded_demo > "$OUT/demo_with_patch.log" 2>&1
+  if grep -q "^test result: ok" "$OUT/demo_with_patch.log" && grep -q "fixed_point" "$OUT/agent_meta.json" 2>/dev/null; then
+    # a change that only manifests in the fixed_point build: the demonstration needs the feature
+    FEAT="--features fixed_point"
+    cargo test --offline $FEAT --test seeded_demo > "$OUT/demo_with_patch.log" 2>&1
+    cargo test --workspace --no-fail-fast --offline $FEAT > "$OUT/suite_with_patch_fp.log" 2>&1
+    if grep -q "^test result: FAILED" "$OUT/suite_with_patch_fp.log" && ! grep -B30 "^test result: FAILED" "$OUT/suite_with_patch_fp.log" | grep -q "seeded_demo"; then SUITE=fails_fixed_point; fi
+    rm -f "$OUT/suite_with_patch_fp.log"
+  fi
   if grep -q "^test result: ok" "$OUT/demo_with_patch.log"; then DEMO_WITH=passes; else DEMO_WITH=fails; fi
   git checkout -q -- src core
-  cargo test --offline --test seeded_demo > "$OUT/demo_without_patch.log" 2>&1
+  cargo test --offline $FEAT --test seeded_demo > "$OUT/demo_without_patch.log" 2>&1
   if grep -q "^test result: ok" "$OUT/demo_without_patch.log"; then DEMO_WITHOUT=passes; else DEMO_WITHOUT=fails; fi
 fi
 cd /verif
